@@ -47,7 +47,7 @@ def build_file(R, pkts, msgs):
 
 
 def generate(R, tier):
-    n = 300 if tier == "quick" else 30000
+    n = 800 if tier == "quick" else 30000
     for _ in range(n):
         pkts = []
         for _ in range(R.randint(2, 4)):
